@@ -48,6 +48,7 @@ from src.core.registry import RuleRegistry
 from src.core.types import Violation
 from src.linter_config.ignore import get_ignore_parser
 from src.linter_config.loader import LinterConfigLoader
+from src.linter_config.pattern_utils import matches_pattern
 
 from .language_detector import detect_language
 
@@ -311,7 +312,7 @@ class Orchestrator:  # thailint: ignore[srp]
         if _is_hardcoded_excluded(self._path_inside_project(file_path)):
             return []
 
-        if self.ignore_parser.is_ignored(file_path):
+        if self.ignore_parser.is_ignored(file_path) or self._ignored_by_config(file_path):
             return []
 
         language = detect_language(file_path)
@@ -322,6 +323,18 @@ class Orchestrator:  # thailint: ignore[srp]
         context = FileLintContext(file_path, language, metadata=metadata)
 
         return self._execute_rules(rules, context)
+
+    def _ignored_by_config(self, file_path: Path) -> bool:
+        """Apply the top-level `ignore` list of the loaded configuration.
+
+        The ignore parser reads that list from .thailint.yaml only; the same list in
+        .thailint.json, pyproject.toml or a --config file must be honoured as well.
+        """
+        patterns = self.config.get("ignore") if isinstance(self.config, dict) else None
+        if not isinstance(patterns, list) or not patterns:
+            return False
+        relative = str(self._path_inside_project(file_path))
+        return any(matches_pattern(relative, str(pattern)) for pattern in patterns)
 
     def _path_inside_project(self, file_path: Path) -> Path:
         """Return file_path relative to the project root (unchanged if it lies outside)."""
